@@ -52,7 +52,8 @@ InsPool ==
 
 DataPool ==
   {[k |-> "data", mn |-> "DB", items |-> <<E(Lit(a)), E(Lit(b))>>] : a \in Bytes8, b \in {0, 255}}
-  \cup {[k |-> "data", mn |-> "DB", items |-> <<[t |-> "s", b |-> s], E(Lit(0))>>] : s \in {<<104, 105>>, <<97, 44, 59, 35, 32, 98>>, << >>}}
+  \cup {[k |-> "data", mn |-> "DB", items |-> <<[t |-> "s", b |-> s], E(Lit(0))>>] : s \in {<<104, 105>>, <<97, 44, 59, 35, 32, 98>>, << >>,
+                                                                                            <<99, 97, 102, 195, 169>>, <<227, 129, 130, 33>>}}      \* "caf\'e", hiragana a + "!" (UTF-8: more bytes than characters)
   \cup {[k |-> "data", mn |-> "DW", items |-> <<E(Hex(v))>>] : v \in {0, 43605, 65535, -2}}
   \cup {[k |-> "data", mn |-> "DD", items |-> <<E(Hex(v)), E(Lit(1))>>] : v \in {0, 305419896, -1}}
   \cup {[k |-> "resb", e |-> Lit(v)] : v \in {0, 1, 5, 18}}
